@@ -51,6 +51,8 @@ def scenario(rng, i):
         else:
             steps.append({"op": "flatten", **({"rel_dest": True} if rng.random() < 0.5 else {})})
             steps.append({"op": "verifypl"})
+    if i % 3 == 0:
+        steps.append({"op": "flatten", "deep_dest": True})          # destination below folders that do not exist
     return {"tree": tree, "steps": steps}
 
 
